@@ -247,6 +247,7 @@ func monC06(w *World) {
 		return st[nd]
 	}
 	var global []cmdKey // execution index -> command, fixed by the first honest replica to get there
+	var globalData [][32]byte // ... and the payload that replica executed for it
 	tag := func(nd *Node) string {
 		if nd.overflowed {
 			return "@queue-overflow"
@@ -342,8 +343,13 @@ func monC06(w *World) {
 						w.violate("C06", "C06/cross"+tag(nd), nd, "%s executed (%d,%d) as its command number %d, another honest replica executed (%d,%d) there", nd, key.c, key.s, idx+1, global[idx].c, global[idx].s)
 						return
 					}
+					if globalData[idx] != sha256.Sum256(c.Data) {
+						w.violate("C06", "C06/cross-payload"+tag(nd), nd, "%s executed command (%d,%d) as its number %d with another payload than the honest replica that executed it first", nd, key.c, key.s, idx+1)
+						return
+					}
 				} else {
 					global = append(global, key)
+					globalData = append(globalData, sha256.Sum256(c.Data))
 				}
 			}
 		}
